@@ -634,7 +634,8 @@ def run_fortran_engine(ctx, prop):
         shutil.rmtree(d, ignore_errors=True)
     ctx.count("probe:step_failed", outcomes.count("failed"))
     ctx.count("probe:step_switched", outcomes.count("switched"))
-    ctx.count("probe:step_raised", outcomes.count("raised"))
+    if prop == "C03":        # (C12 excludes raising scripts by construction)
+        ctx.count("probe:step_raised", outcomes.count("raised"))
     ctx.count("fault:step_cut_short_by_failstep", outcomes.count("failed"))
     ctx.count("fault:step_cut_short_by_switch", outcomes.count("switched"))
     ctx.count("fault:step_cut_short_by_raise", outcomes.count("raised"))
